@@ -200,9 +200,22 @@ def st_cases():
         number = {}
         for _ in range(nres):
             chain = draw(st.sampled_from(["A", "A", "B"]))
-            number[chain] = number.get(chain, 0) + 1
+            # a position modelled as two different residues (microheterogeneity: G as one conformer, A as the other)
+            # keeps its number; otherwise the chain's numbering moves on
+            shared = chain in number and draw(st.integers(0, 4)) == 0
+            if not shared:
+                number[chain] = number.get(chain, 0) + 1
             if draw(st.booleans()):
-                names, letter, resname = list(NUC_NAMES), "G", "G"
+                prev = [r for r in residues if r["chain"] == chain and r["number"] == number[chain]]
+                resname = "A" if any(r["resname"] == "G" for r in prev) else "G"
+                if shared and any(r["resname"] == resname for r in prev):
+                    number[chain] += 1
+                names, letter = list(NUC_NAMES), resname
+            elif shared:
+                number[chain] += 1
+                k = draw(st.integers(1, 6))
+                names = draw(st.lists(st.sampled_from(AA_NAMES), min_size=k, max_size=k, unique=True))
+                letter, resname = "?", draw(st.sampled_from(["ALA", "HOH", "MG", "CYS"]))
             else:
                 k = draw(st.integers(1, 6))
                 names = draw(st.lists(st.sampled_from(AA_NAMES), min_size=k, max_size=k, unique=True))
@@ -378,6 +391,9 @@ def classify(case):
         labs.append("clashes>=3")
     if info["sums"] >= 2:
         labs.append("different-occupancy-sums")
+    rs = case.get("residues") or []
+    if len({(r["chain"], r["number"]) for r in rs}) < len(rs):
+        labs.append("two-residues-at-one-position")
     if case.get("kind") == "cli":
         return info["clashes"] >= 3, labs
     return info["clashes"] >= 3 and info["sums"] >= 2, labs
